@@ -191,6 +191,126 @@ theorem no_underflow_stack (f : Func) (cfg : Cfg) (marks : List (Option Nat)) (p
   · simp only [hp, if_false] at h
     cases h
 
+/-! ## what "no fault" means, class by class (every read the VM handler makes is in range) -/
+
+theorem execRaw_of_exec {P : Prog} {f : Func} {cfg : Cfg} {s : St} {l : List St}
+    (h : exec P f cfg s = .ok l) : ∃ l', execRaw P f cfg s = .ok l' := by
+  unfold exec at h
+  cases hr : execRaw P f cfg s with
+  | error e => rw [hr] at h; cases h
+  | ok l' => exact ⟨l', rfl⟩
+
+/-- `GET_LOCAL*` / `SELF`: the slot read is inside the frame -/
+theorem local_read_in_frame {P : Prog} {f : Func} {cfg : Cfg} {s : St} {l : List St} {i : Instr} {fixed : Option Nat}
+    (h : exec P f cfg s = .ok l) (hd : decodeAt f.code s.pc = .ok i) (ha : i.info.sem.act = .getLocal fixed) :
+    fixed.getD i.a < localCount f := by
+  obtain ⟨l', hr⟩ := execRaw_of_exec h
+  unfold execRaw at hr
+  rw [hd] at hr
+  simp only [ha] at hr
+  unfold chkLocal at hr
+  by_cases hlt : fixed.getD i.a < localCount f
+  · exact hlt
+  · simp only [hlt, if_false] at hr
+    cases hr
+
+/-- `SET_LOCAL*`: the slot written is inside the frame and the value was on the operand stack -/
+theorem local_write_in_frame {P : Prog} {f : Func} {cfg : Cfg} {s : St} {l : List St} {i : Instr} {fixed : Option Nat}
+    (h : exec P f cfg s = .ok l) (hd : decodeAt f.code s.pc = .ok i) (ha : i.info.sem.act = .setLocal fixed) :
+    fixed.getD i.a < localCount f ∧ 0 < s.stk.length := by
+  obtain ⟨l', hr⟩ := execRaw_of_exec h
+  unfold execRaw at hr
+  rw [hd] at hr
+  simp only [ha] at hr
+  unfold chkLocal at hr
+  by_cases hlt : fixed.getD i.a < localCount f
+  · refine ⟨hlt, ?_⟩
+    simp only [hlt, if_true] at hr
+    cases hstk : s.stk with
+    | nil => rw [hstk] at hr; cases hr
+    | cons a r => simp
+  · simp only [hlt, if_false] at hr
+    cases hr
+
+/-- `GET_UPVALUE*`: the index is below the closure's `UpvalueCount` -/
+theorem upvalue_read_in_range {P : Prog} {f : Func} {cfg : Cfg} {s : St} {l : List St} {i : Instr} {fixed : Option Nat}
+    (h : exec P f cfg s = .ok l) (hd : decodeAt f.code s.pc = .ok i) (ha : i.info.sem.act = .getUp fixed) :
+    fixed.getD i.a < f.upvalues := by
+  obtain ⟨l', hr⟩ := execRaw_of_exec h
+  unfold execRaw at hr
+  rw [hd] at hr
+  simp only [ha] at hr
+  unfold chkUp at hr
+  by_cases hlt : fixed.getD i.a < f.upvalues
+  · exact hlt
+  · simp only [hlt, if_false] at hr
+    cases hr
+
+/-- `LOAD_VALUE*`: the constant index is inside `Values` -/
+theorem const_load_in_range {P : Prog} {f : Func} {cfg : Cfg} {s : St} {l : List St} {i : Instr} {fixed : Option Nat}
+    (h : exec P f cfg s = .ok l) (hd : decodeAt f.code s.pc = .ok i) (ha : i.info.sem.act = .loadValue fixed) :
+    fixed.getD i.a < f.consts.size := by
+  obtain ⟨l', hr⟩ := execRaw_of_exec h
+  unfold execRaw at hr
+  rw [hd] at hr
+  simp only [ha] at hr
+  cases hc : f.consts[fixed.getD i.a]? with
+  | none => rw [hc] at hr; cases hr
+  | some c => exact (Array.getElem?_eq_some_iff.mp hc).1
+
+/-- `CALL_METHOD8/16`: the operand denotes a `*CallSiteInfo` constant (the kind the handler casts to
+without a check) and receiver plus arguments are on the operand stack -/
+theorem call_site_ok {P : Prog} {f : Func} {cfg : Cfg} {s : St} {l : List St} {i : Instr}
+    (h : exec P f cfg s = .ok l) (hd : decodeAt f.code s.pc = .ok i) (ha : i.info.sem.act = .call .dyn) :
+    ∃ argc, f.consts[i.a]? = some (.callSite argc) ∧ argc + 1 ≤ s.stk.length := by
+  obtain ⟨l', hr⟩ := execRaw_of_exec h
+  unfold execRaw at hr
+  rw [hd] at hr
+  simp only [ha] at hr
+  cases hc : f.consts[i.a]? with
+  | none => rw [hc] at hr; cases hr
+  | some c =>
+    rw [hc] at hr
+    cases c <;> simp only [] at hr <;> try (cases hr)
+    rename_i argc
+    refine ⟨argc, rfl, ?_⟩
+    unfold callStep need at hr
+    by_cases hn : argc + 1 ≤ s.stk.length
+    · exact hn
+    · simp only [hn, if_false] at hr
+      cases hr
+
+/-- generic stack instructions (`ADD`, `POP`, `NEW_*`, …): their operands are on the operand stack -/
+theorem stack_operands_present {P : Prog} {f : Func} {cfg : Cfg} {s : St} {l : List St} {i : Instr} {p q : Nat} {thr : Thr}
+    (h : exec P f cfg s = .ok l) (hd : decodeAt f.code s.pc = .ok i) (ha : i.info.sem.act = .stack p q thr) :
+    p ≤ s.stk.length := by
+  obtain ⟨l', hr⟩ := execRaw_of_exec h
+  unfold execRaw at hr
+  rw [hd] at hr
+  simp only [ha] at hr
+  exact no_underflow_stack f cfg _ _ _ _ _ _ _ _ hr
+
+/-- `JUMP`: the target is inside the function -/
+theorem jump_target_in_code {P : Prog} {f : Func} {cfg : Cfg} {s : St} {l : List St} {i : Instr}
+    (h : exec P f cfg s = .ok l) (hd : decodeAt f.code s.pc = .ok i) (ha : i.info.sem.act = .jump) :
+    s.pc + i.width + i.a < f.code.size := by
+  obtain ⟨l', hr⟩ := execRaw_of_exec h
+  unfold execRaw at hr
+  rw [hd] at hr
+  simp only [ha] at hr
+  unfold chkTarget at hr
+  by_cases hlt : s.pc + i.width + i.a < f.code.size
+  · exact hlt
+  · simp only [hlt, if_false] at hr
+    cases hr
+
+/-- every reachable program counter of an accepted function points into the code -/
+theorem reachable_pc_in_code (P : Prog) (f : Func) (cfg : Cfg) (hs : SafeActivation P f cfg) (s : St)
+    (hr : Reachable P f cfg s) : s.pc < f.code.size := by
+  obtain ⟨⟨i, hi, _⟩, _⟩ := hs s hr
+  have := decodeAt_bounds _ _ _ hi
+  omega
+
 /-! ## non-vacuity and witnesses (concrete functions assembled by opcode *name*) -/
 
 /-- opcode byte of a name in the probed table -/
